@@ -118,7 +118,6 @@ func (r *routingNode) CalcHash() []byte {
 	}
 	h := encryption.RawHash(m)
 	r.hash = h
-	r.dirty = false
 	return h
 }
 
@@ -142,7 +141,12 @@ func (r *routingNode) Save(batcher storage.Batcher) error {
 	if err != nil {
 		return err
 	}
-	return batcher.Put(r.hash, data)
+	if err := batcher.Put(r.hash, data); err != nil {
+		return err
+	}
+	// only a saved node is clean: computing its hash (Root, proofs) must not make Commit skip it
+	r.dirty = false
+	return nil
 }
 
 func (r *routingNode) Serialize() ([]byte, error) {
@@ -203,7 +207,6 @@ func (v *valueNode) CalcHash() []byte {
 	m = append(m, v.value...)
 	h := encryption.RawHash(m)
 	v.hash = h
-	v.dirty = false
 	return h
 }
 
@@ -227,7 +230,12 @@ func (v *valueNode) Save(batcher storage.Batcher) error {
 	if err != nil {
 		return err
 	}
-	return batcher.Put(v.hash, data)
+	if err := batcher.Put(v.hash, data); err != nil {
+		return err
+	}
+	// only a saved node is clean: computing its hash (Root, proofs) must not make Commit skip it
+	v.dirty = false
+	return nil
 }
 
 func (v *valueNode) Serialize() ([]byte, error) {
@@ -334,7 +342,6 @@ func (s *shortNode) CalcHash() []byte {
 		m = append(m, s.value.CalcHash()...)
 	}
 	s.hash = encryption.RawHash(m)
-	s.dirty = false
 	return s.hash
 }
 
@@ -401,7 +408,12 @@ func (s *shortNode) Save(batcher storage.Batcher) error {
 	if err != nil {
 		return err
 	}
-	return batcher.Put(s.hash, data)
+	if err := batcher.Put(s.hash, data); err != nil {
+		return err
+	}
+	// only a saved node is clean: computing its hash (Root, proofs) must not make Commit skip it
+	s.dirty = false
+	return nil
 }
 
 func DeserializeNode(data []byte) (Node, error) {
